@@ -24,7 +24,7 @@ ROWS = [
     ("C12", "fixed", "fix: MeshLine1 uniform refinement", "F3",
      "tags-subdomain-not-children-of-old-cells/refine_uniform/MeshLine1",
      "MeshLine1.refined(k): subdomains propagated with the generic child map k, k+nt although the children are 2k, 2k+1"),
-    ("C13", "fixed", "fix: MeshLine1 adaptive refinement", "F2",
+    ("C13", "fixed", "fix: MeshLine1 adaptive refinement remaps", "F2",
      "tags-subdomain-not-children-of-old-cells/refine_adaptive/MeshLine1",
      "MeshLine1.refined(marked): elements reordered (unmarked first) but subdomain indices kept"),
     ("C13", "fixed", "fix: MeshTet1 adaptive refinement", "F1",
@@ -57,12 +57,18 @@ ROWS = [
     ("C17", "fixed", "fix: dictionary/JSON and npz forms keep", "F9",
      "R1-orientation-differs/dict-json-npz/*",
      "to_dict/JSON/save_npz stored oriented boundaries as plain index lists: orientation flags lost"),
+    ("C17", "fixed", "fix: decoding tags from cell data keeps tag names", "F18",
+     "R1-subdomain-names-differ/meshio-formats/*",
+     "tag names containing ':' (the library's gmsh loader produces 'gmsh:bounding_entities') were truncated at the first colon by _decode_cell_data"),
     ("C18", "fixed", "fix: MeshQuad1.to_meshtri(style='x') numbers", "F16",
      "nested-child-in-no-old-cell/split/MeshQuad1",
      "to_meshtri(style='x') numbered the new midpoints max(t)+1.. although they are appended at p.shape[1]..: wrong on a mesh whose point array ends with unused vertices (a part returned by `@`)"),
     ("C18", "fixed", "fix: MeshTri1 * MeshLine1 offsets", "F17",
      "valid-degenerate-cell/extrude/MeshTri1",
      "MeshTri1 * MeshLine1 offset the layers by nvertices = max(t)+1 although every layer appends p.shape[1] points: degenerate/inverted prisms on a mesh with trailing unused vertices"),
+    ("C13", "fixed", "fix: MeshLine1 adaptive refinement numbers", "F19",
+     "nested-child-in-no-old-cell/refine_adaptive/MeshLine1",
+     "MeshLine1.refined(marked) numbered the new midpoints max(t)+1.. although they are appended at p.shape[1]..: wrong on a mesh whose point array ends with unused vertices"),
     ("C18", "known", None, "K1",
      "conforming-hanging-node-or-hole/split/MeshHex1",
      "MeshHex1.to_meshtet on a mesh whose hexahedra do not all use the same local orientation (e.g. a file mesh; any of the 24 rotations of the reference numbering is admissible): the fixed 6-tetrahedra template cuts a shared quadrilateral face along different diagonals from its two sides, the tetrahedral mesh is not conforming"),
